@@ -242,6 +242,25 @@ func SwAdd[T addable](v interface{}, add T) T {
 	return add
 }
 
+// MakeRec builds an unnamed struct that mentions the type parameter and carries tags on some
+// fields only: the instantiated type is identical to the same struct written out elsewhere.
+func MakeRec[T any](v T) interface{} {
+	return struct {
+		ID   int
+		Val  T ` + "`k:\"v\"`" + `
+		Note string ` + "`json:\"note\"`" + `
+	}{1, v, "n"}
+}
+
+// RunLit calls a method of its type argument from inside a function literal: whether the literal
+// can suspend depends on the instantiation.
+type Doer interface{ Do() string }
+
+func RunLit[D Doer](d D) string {
+	f := func() string { return d.Do() + "|after" }
+	return f() + "|ret"
+}
+
 func Map[T, U any](xs []T, f func(T) U) []U {
 	var out []U
 	for _, x := range xs {
@@ -330,6 +349,13 @@ func Gen(rt *rapid.T) Program {
 		emit(fmt.Sprintf("base.Describe(%s.OwnBox()) + %s.OwnBox().Kind() + base.CallStr(%s.Own{})", name, name, name))
 		emit(fmt.Sprintf("%s.Wrap(%s.Own{1}) + base.LocalTagged(%s.Own{}).TypeTag()", name, name, name))
 	}
+	// a second package whose import path ends like lib0's: both instantiate base generics from
+	// ordinary code with different type arguments (package order must not depend on the last
+	// path element only)
+	files["alt/lib0/lib0.go"] = "package lib0\n\nimport \"ROOT/base\"\n\nfunc AltBox() interface{} { return base.MakeBox(int16(7)) }\n\nfunc AltPair() string { return base.Name[base.Pair[string, bool]]() + base.Name[base.Rev[int8, uint8]]() }\n"
+	imports = append(imports, `altlib0 "ROOT/alt/lib0"`)
+	emit("base.Describe(altlib0.AltBox()) + altlib0.AltPair() + base.Name[base.Pair[string, float32]]()")
+	p.Packages++
 	// hub instantiates the libraries' Fan functions from generic code only
 	{
 		var calls []string
@@ -347,6 +373,8 @@ func Gen(rt *rapid.T) Program {
 		}
 		p.Packages += nlate
 		hubDecl = "func hub[T any](x T) string { return " + strings.Join(calls, " + \"|\" + ") + " }\n\n"
+		emit("quickT() + \" \" + slowT() + \" \" + quickT()")
+		emit("recProbe()")
 		emit("hub(1) + \" \" + hub(\"s\")")
 		emit("hub(base.Named(2)) + \" \" + hub([]int{1})")
 	}
@@ -410,6 +438,8 @@ func Gen(rt *rapid.T) Program {
 	}
 	mb.WriteString(")\n\ntype mine struct{}\n\nfunc (mine) Str() string { return \"mine\" }\n\ntype ptrmine struct{ n int }\n\nfunc (p *ptrmine) Str() string { p.n++; return \"ptrmine\" }\n\n")
 	mb.WriteString(hubDecl)
+	mb.WriteString("// no generated program prints more than a few hundred lines\nfunc init() { outLimit = 5000 }\n\n")
+	mb.WriteString("type quick struct{}\n\nfunc (quick) Do() string { return \"quick\" }\n\ntype sleeper struct{}\n\nfunc (sleeper) Do() string {\n\tc := make(chan string)\n\tgo func() { c <- \"slept\" }()\n\treturn <-c\n}\n\n// two local types with the same name, one per function\nfunc quickT() string {\n\ttype T struct{ quick }\n\treturn base.RunLit(T{})\n}\n\nfunc slowT() string {\n\ttype T struct{ sleeper }\n\treturn base.RunLit(T{})\n}\n\nfunc recProbe() string {\n\ttype R = struct {\n\t\tID   int\n\t\tVal  int `k:\"v\"`\n\t\tNote string `json:\"note\"`\n\t}\n\tv := base.MakeRec(7)\n\t_, ok := v.(R)\n\t_, ok2 := v.(struct {\n\t\tID   int `k:\"v\"`\n\t\tVal  int `json:\"note\"`\n\t\tNote string\n\t})\n\tm := map[interface{}]int{R{1, 7, \"n\"}: 5}\n\treturn btoa(ok) + btoa(ok2) + btoa(v == interface{}(R{1, 7, \"n\"})) + itoa(m[v])\n}\n\n")
 	mb.WriteString("func describeSwitch(v interface{}) string {\n\tswitch v.(type) {\n\tcase base.Box[int]:\n\t\treturn \"[Box[int]]\"\n\tcase base.Box[string]:\n\t\treturn \"[Box[string]]\"\n\tcase base.Pair[string, int]:\n\t\treturn \"[Pair[string,int]]\"\n\tcase base.Pair[string, string]:\n\t\treturn \"[Pair[string,string]]\"\n\tcase base.Box[base.Named]:\n\t\treturn \"[Box[Named]]\"\n\t}\n\treturn \"[\" + base.Describe(v) + \"?]\"\n}\n\n")
 	mb.WriteString("func mapKeys(vs ...interface{}) string {\n\tm := map[interface{}]int{}\n\tfor i, v := range vs {\n\t\tm[v] += i + 1\n\t}\n\tr := itoa(len(m))\n\tfor _, v := range vs {\n\t\tr += \",\" + itoa(m[v])\n\t}\n\treturn r\n}\n\n")
 	mb.WriteString("func main() {\n" + mainBody.String() + "}\n")
